@@ -206,8 +206,13 @@ pub fn dirty_buffer() -> Vec<u8> {
 /// Reference encoding of a `Vec<u8>` value: a definite array of unsigned integers, shortest heads.
 pub fn array_payload(v: &[u8]) -> Vec<u8> {
     let mut p = refmodel::preferred_head(4, v.len() as u64);
+    p.reserve(v.len());
     for x in v {
-        p.extend_from_slice(&refmodel::preferred_head(0, *x as u64));
+        if *x < 24 {
+            p.push(*x);
+        } else {
+            p.extend_from_slice(&[0x18, *x]);
+        }
     }
     p
 }
